@@ -8,19 +8,31 @@
 #include <cstdlib>
 #include <string>
 
+#ifdef VERIF_VALUE_POINTS
+// schedule engine only: every copy / assignment of a value the container makes is a schedule point, which puts
+// preemption points INSIDE the containers' critical sections (a thread that is descheduled there still owns the lock,
+// so only code that does not take the lock can run meanwhile - exactly what an unlocked observer would do)
+extern "C" void verif_value_point();
+#define VERIF_VALUE_POINT() verif_value_point()
+#else
+#define VERIF_VALUE_POINT() ((void)0)
+#endif
+
 namespace vv
 {
-constexpr int kMaxKeys = 48;
+constexpr int kMaxKeys = 160;
 
 // ---- keys -------------------------------------------------------------------------------------
 inline uint64_t u64_key(int i)
 {
     // Mixed bag: small values, values colliding modulo the small primes libstdc++ uses as bucket
     // counts (2,3,5,7,11,13,17,...), and extremes.  All distinct.
-    static const uint64_t t[kMaxKeys] = {
+    static const uint64_t t[48] = {
         0ull, 1ull, 13ull, 26ull, 0xFFFFFFFFFFFFFFFFull, 1ull << 32, 39ull, 7ull, 14ull, 2ull, 5ull, 10ull, 3ull, 6ull, 11ull, 22ull,
         17ull, 34ull, 1ull << 63, (1ull << 32) + 1, 29ull, 58ull, 37ull, 74ull, 53ull, 106ull, 97ull, 194ull, 4ull, 8ull, 9ull, 12ull,
         15ull, 16ull, 18ull, 19ull, 20ull, 21ull, 23ull, 24ull, 25ull, 27ull, 28ull, 30ull, 31ull, 32ull, 33ull, 35ull};
+    if (i >= 48)
+        return 1000ull + static_cast<uint64_t>(i) * 7ull; // large universes (unbounded containers): plain distinct keys
     return t[i];
 }
 inline std::string str_key(int i)
@@ -77,7 +89,11 @@ class Tracked
 public:
     Tracked() : m_payload(0), m_block(new uint64_t(0)) { born(); }
     explicit Tracked(uint64_t p) : m_payload(p), m_block(new uint64_t(p)) { born(); }
-    Tracked(const Tracked& o) : m_payload(o.checked()), m_block(new uint64_t(*o.m_block)) { born(); }
+    Tracked(const Tracked& o) : m_payload(o.checked()), m_block(new uint64_t(*o.m_block))
+    {
+        born();
+        VERIF_VALUE_POINT();
+    }
     Tracked(Tracked&& o) noexcept : m_payload(o.checked()), m_block(o.m_block)
     {
         o.m_block = new uint64_t(0xFFFF'FFFF'FFFF'FFFEull);
@@ -86,6 +102,7 @@ public:
     }
     Tracked& operator=(const Tracked& o)
     {
+        VERIF_VALUE_POINT();
         checked();
         uint64_t p = o.checked();
         uint64_t b = *o.m_block;
@@ -95,6 +112,7 @@ public:
     }
     Tracked& operator=(Tracked&& o) noexcept
     {
+        VERIF_VALUE_POINT();
         checked();
         o.checked();
         if (this != &o)
